@@ -11,16 +11,21 @@
 (* and a machine whose state space is the INPUT SPACE of first_order_match: one state per vector      *)
 (* (pattern, target, given instantiation).  Patterns come from the typed generator (all well-typed    *)
 (* terms with schematic variables up to a depth) plus deeper hand-picked shapes (Miller patterns under *)
-(* 1-2 binders, repeated variables, polymorphic patterns, non-pattern applications); targets are       *)
+(* 1-2 binders, nested binders, repeated variables, polymorphic patterns, non-pattern applications) and *)
+(* all mixed-argument applications (a schematic head applied to every selection and order of distinct    *)
+(* bound variables of 2-3 binders and first-order schematic variables, bare or guarded); targets are     *)
 (* instances of the pattern under every small instantiation (positive by construction), the same       *)
 (* before normalisation / eta-contracted / eta-expanded, every one-atom perturbation of them, and       *)
 (* unrelated terms (also of other types); given instantiations are empty / parts of the generating one  *)
-(* / inconsistent with it / about other variables.                                                     *)
+(* / its argument variables only / inconsistent with it / about other variables; every instance is     *)
+(* also a ground pattern against itself.  (The replayer additionally builds every target with maximal   *)
+(* sharing of equal sub-term objects: the outcome must depend on the term, not on the object graph.)    *)
 (* Invariants (design level = sanity of the oracle that C09_MatcherTrace applies to the real code):    *)
 (*   GenMatches   the generating instantiation Matches every target derived from it (beta and eta)      *)
 (*   PosFOMatch   positives of first-order patterns are FOMatchable from every consistent seed          *)
 (*   WitnessUnique every brute-force witness of a first-order positive extends the generating inst     *)
 (*   BadSeedUnmatchable  a seed that binds a variable of the pattern differently has no witness         *)
+(*   SelfMatch    every instance is a ground first-order pattern that matches itself                           *)
 (*   NoSVarLeft / PerturbedDiffers  positives are closed instances; perturbed positives are really different  *)
 (*   UniverseAdequate    the cheap candidate universe (subterms at the positions of the variable) gives the same witnesses *)
 (*   WitnessesMatch      every brute-force witness Matches (literal equality implies beta-eta equality) *)
@@ -34,17 +39,19 @@ NoVec == V(vx, vx, EmptyInst, EmptyInst, "none", "empty")
 Init == pat \in Patterns /\ vec = NoVec /\ wit = {} /\ witAll = {} /\ phase = "pattern"
 Choose == /\ phase = "pattern" /\ phase' = "vector" /\ UNCHANGED pat
           /\ vec' \in VectorsOf(pat)
-          /\ wit' = IF FOFragment(<<pat>>) THEN FOWitnesses(<<pat>>, <<vec'.t>>, vec'.s0) ELSE {}
-          /\ witAll' = IF FOFragment(<<pat>>) THEN FOWitnessesIn(<<pat>>, <<vec'.t>>, vec'.s0, TRUE) ELSE {}
+          /\ wit' = IF FOFragment(<<vec'.p>>) THEN FOWitnesses(<<vec'.p>>, <<vec'.t>>, vec'.s0) ELSE {}
+          /\ witAll' = IF FOFragment(<<vec'.p>>) THEN FOWitnessesIn(<<vec'.p>>, <<vec'.t>>, vec'.s0, TRUE) ELSE {}
 Next == Choose
 Spec == Init /\ [][Next]_vars
 
-ByConstruction == {"pos", "raw", "etac", "etax"}
-ConsistentSeeds == {"empty", "full", "extra", "ty", "sv1"}
+ByConstruction == {"pos", "raw", "etac", "etax", "self"}
+ConsistentSeeds == {"empty", "full", "extra", "ty", "sv1", "args"}
 InFragment == phase = "vector" /\ FOFragment(<<vec.p>>)
-WellFormed == WellTyped(vec.p) /\ WellTyped(vec.t) /\ SVarsConsistent(SVarsOf(vec.p)) /\ (phase = "vector" => vec.p = pat)
+WellFormed == WellTyped(vec.p) /\ WellTyped(vec.t) /\ SVarsConsistent(SVarsOf(vec.p)) /\ (phase = "vector" => (vec.p = pat \/ vec.kind = "self"))
 GenMatches == vec.kind \in ByConstruction => Matches(vec.p, vec.t, vec.gi)
 PosFOMatch == (vec.kind = "pos" /\ vec.seed \in ConsistentSeeds /\ InFragment) => wit # {}
+\* every instance, taken as a ground pattern, is first-order matchable against itself (by the given, empty, instantiation)
+SelfMatch == (phase = "vector" /\ vec.kind = "self") => (InFragment /\ wit = {EmptyInst})
 WitnessUnique == (vec.kind = "pos" /\ InFragment) => \A w \in wit : Extends(w, vec.gi)
 BadSeedUnmatchable == (vec.kind = "pos" /\ vec.seed \in {"bad_sv", "bad_ty"} /\ InFragment) => wit = {}
 \* the generating instantiation binds every schematic variable of the pattern: no schematic variable is left in a target
